@@ -94,12 +94,31 @@ pub fn gen_c02(rng: &mut Rng, _i: u64, tier: Tier) -> Script {
     let mut s = Script::new("C02", "pipe");
     base_cfg(rng, &mut s, true);
     s.set("clauses", PC_C02 | PC_C16);
-    let n = gen::plain_size(rng, if tier == Tier::Thorough { 15 } else { 8 });
-    let plain = gen::plaintext(rng, n);
-    let style = rng.next_u64();
+    let heavy = rng.chance(1, 12);
+    let n = if heavy { rng.range(32_000, 140_000) } else { gen::plain_size(rng, if tier == Tier::Thorough { 15 } else { 8 }) };
+    let plain = if heavy {
+        // compressible data with many competing matches: keeps a lazy match pending at block flushes
+        let cls = rng.pick(&[3u64, 3, 8, 5, 4]);
+        gen::segment(rng, cls, n, &[])
+    } else {
+        gen::plaintext(rng, n)
+    };
+    if heavy {
+        // lazy parsing, buffer sink smaller than a flushed block: early return from compress_normal
+        s.set("level", rng.range(4, 10) as i64);
+        s.set("strategy", rng.pick(&[0i64, 0, 0, 1, 4]));
+        s.set("driver", rng.pick(&[0i64, 0, 2]));
+        s.set("window_bits", 15);
+    }
+    let style = if heavy { 5 * rng.pick(&[1u64, 2]) + rng.pick(&[0u64, 1, 2]) } else { rng.next_u64() };
     let flush_pct = rng.pick(&[0u64, 5, 20, 50]);
     let zero_ok = s.c("driver") != 2 || rng.chance(1, 2);
     s.ops = comp_ops(rng, n, style, &ALL_TDEFL, flush_pct, zero_ok);
+    if heavy {
+        for o in s.ops.iter_mut() {
+            o[1] = rng.pick(&[1i64, 100, 512, 4096, 30000]);
+        }
+    }
     // an explicit Finish somewhere in the schedule now and then (sticky afterwards)
     if rng.chance(1, 4) && !s.ops.is_empty() {
         let k = rng.usize_below(s.ops.len());
@@ -325,7 +344,7 @@ pub fn defs() -> Vec<CheckDef> {
         CheckDef {
             id: "C02",
             level: "exploration",
-            runs_quick: 600_000,
+            runs_quick: 300_000,
             runs_thorough: 6_000_000,
             block: 256,
             gen: gen_c02,
@@ -377,7 +396,7 @@ pub fn defs() -> Vec<CheckDef> {
         CheckDef {
             id: "C12",
             level: "exploration",
-            runs_quick: 600_000,
+            runs_quick: 300_000,
             runs_thorough: 4_000_000,
             block: 256,
             gen: gen_c12,
